@@ -235,8 +235,61 @@ func descValue(v ssa.Value, depth int) string {
 	return "val:" + typeDesc(v.Type())
 }
 
+// wrapperInner: fn does nothing but hand its parameters (or fields of them) to one other
+// call and return that call's results: `func (s *State) printNetspocCmd(c *cmd) string {
+// return getPrintableCmd(c, s.b) }`.  Such a wrapper is described as the call it makes.
+func wrapperInner(fn *ssa.Function) *ssa.Call {
+	if fn == nil || len(fn.Blocks) != 1 || fn.Synthetic != "" || !isModFunc(fn) || fn.Parent() != nil {
+		return nil
+	}
+	var inner *ssa.Call
+	for _, in := range fn.Blocks[0].Instrs {
+		switch x := in.(type) {
+		case *ssa.Call:
+			if inner != nil {
+				return nil
+			}
+			if _, isB := x.Common().Value.(*ssa.Builtin); isB {
+				return nil
+			}
+			inner = x
+		case *ssa.Return:
+			if inner == nil || len(x.Results) != 1 || x.Results[0] != ssa.Value(inner) {
+				return nil
+			}
+		case *ssa.FieldAddr, *ssa.UnOp, *ssa.Field:
+		default:
+			return nil
+		}
+	}
+	if inner == nil || inner.Common().StaticCallee() == nil || inner.Common().StaticCallee() == fn {
+		return nil
+	}
+	return inner
+}
+
 func descCall(c *ssa.Call, depth int) string {
 	com := c.Common()
+	if f := com.StaticCallee(); f != nil && descParamLabel == nil && len(f.Params) == len(com.Args) && depth < 6 {
+		if inner := wrapperInner(f); inner != nil {
+			saved := map[*ssa.Parameter]string{}
+			for i, pa := range f.Params {
+				if old, had := descParamSubst[pa]; had {
+					saved[pa] = old
+				}
+				descParamSubst[pa] = descValue(com.Args[i], depth+1)
+			}
+			out := descCall(inner, depth+1)
+			for _, pa := range f.Params {
+				if old, had := saved[pa]; had {
+					descParamSubst[pa] = old
+				} else {
+					delete(descParamSubst, pa)
+				}
+			}
+			return out
+		}
+	}
 	name := "dyn"
 	if b, ok := com.Value.(*ssa.Builtin); ok {
 		name = b.Name()
